@@ -4,9 +4,12 @@
 //!              edges): winding numbers, hit tests under both rules, signed area, winding
 //!              direction — compared exactly with the Lean model; oracle: exact crossing number
 //!              computed independently, reversal, shoelace, agreement with the fill output.
-//! * `curved`   (oracle only) curved paths and the shape helpers: hit test vs the crossing number
-//!              of an independent fine flattening away from the outline; area sign = requested
-//!              winding of the shape helpers.
+//! * `curved`   curved paths and the shape helpers: winding numbers / hit tests at 48 query points
+//!              (incl. points level with control points: bounding-range early-outs), signed area
+//!              through `PathIterator::flattened`, winding direction — compared exactly with the
+//!              Lean model (Model/Algo/WindingCurves.lean over Model/Geom/Flatten.lean); oracle: hit
+//!              test vs the crossing number of an independent fine flattening away from the
+//!              outline; area sign = requested winding of the shape helpers.
 
 use lyon_algorithms::area::approximate_signed_area;
 use lyon_algorithms::hit_test::{hit_test_path, path_winding_number_at_position};
@@ -322,10 +325,67 @@ fn curved_case(ctx: &mut Ctx) {
         }
         let mut args = Out::new();
         args.t(name).f(tol);
+        // the path as `Path::iter()` yields it: nsubs (first nseg (L to | Q ctrl to | C ctrl1 ctrl2 to)*)*
+        {
+            let evs: Vec<PathEvent> = path.iter().collect();
+            args.u(evs.iter().filter(|e| matches!(e, PathEvent::Begin { .. })).count() as u64);
+            let mut i = 0;
+            while i < evs.len() {
+                if let PathEvent::Begin { at } = evs[i] {
+                    args.p(at);
+                    let mut j = i + 1;
+                    while j < evs.len() && !matches!(evs[j], PathEvent::End { .. }) {
+                        j += 1;
+                    }
+                    args.u((j - i - 1) as u64);
+                    for e in &evs[i + 1..j] {
+                        match *e {
+                            PathEvent::Line { to, .. } => {
+                                args.t("L").p(to);
+                            }
+                            PathEvent::Quadratic { ctrl, to, .. } => {
+                                args.t("Q").p(ctrl).p(to);
+                            }
+                            PathEvent::Cubic { ctrl1, ctrl2, to, .. } => {
+                                args.t("C").p(ctrl1).p(ctrl2).p(to);
+                            }
+                            _ => {}
+                        }
+                    }
+                    i = j + 1;
+                } else {
+                    i += 1;
+                }
+            }
+        }
+        args.u(queries.len() as u64);
+        for q in &queries {
+            args.p(*q);
+        }
         let tag = format!("curved {}", name);
         (args, tag, move || {
             let mut o = Out::new();
-            o.t("-");
+            // compared with the model (Model/Algo/WindingCurves.lean): winding number and both hit
+            // tests at every query point, signed area through the flattened iterator, winding
+            // direction of every sub-path (control polygon)
+            o.t("w");
+            for q in &queries {
+                let w = path_winding_number_at_position(q, path.iter(), tol);
+                let h_eo = hit_test_path(q, path.iter(), FillRule::EvenOdd, tol);
+                let h_nz = hit_test_path(q, path.iter(), FillRule::NonZero, tol);
+                o.i(w as i64).b(h_eo).b(h_nz);
+            }
+            o.t("area").f(approximate_signed_area(tol, path.iter()));
+            o.t("dir");
+            {
+                let mut it = path.iter();
+                while let Some(d) = compute_winding(&mut it) {
+                    o.t(match d {
+                        Winding::Positive => "pos",
+                        Winding::Negative => "neg",
+                    });
+                }
+            }
             let mut orc = Oracle::new();
             let edges = flatten_ref(&path, tol);
             for q in &queries {
